@@ -2,7 +2,8 @@
 //
 // Line formats (one whole history per line; DESIGN Appendix E):
 //
-//	region.hist  mode=mem|file ops=<op>,<op>,...  => <obs>,<obs>,...
+//	region.hist  mode=mem|memt|file ops=<op>,<op>,...  => <obs>,<obs>,...
+//	             (mem: in-memory file without a Truncate method, memt: with Truncate, file: a real *os.File)
 //	region.crash cuts=<n|all>  ops=<op>,<op>,...  => <obs>,<obs>,...
 //
 // ops:  w:<x>:<z>:s<seed>:<len>  WriteSector(x, z, payload(seed, len))     obs: ok | err | panic
@@ -63,10 +64,84 @@ func c14Fnv64(b []byte) uint64 {
 
 // ---------- an in-memory io.ReadWriteSeeker with the semantics of a regular file ----------
 
+// wrec is one physical operation on the backing file: a write (off, data) or, when trunc is set, Truncate(size).
 type wrec struct {
-	off  int64
-	data []byte
+	off   int64
+	data  []byte
+	trunc bool
+	size  int64
 }
+
+// c14TruncMem is the in-memory file with a Truncate method (what *os.File offers): code that type-asserts the
+// backing file for Truncate takes that branch in mode=memt. Truncate is recorded as a physical operation.
+type c14TruncMem struct{ *memFile }
+
+func (t *c14TruncMem) Truncate(size int64) error {
+	if size < 0 || size > regionMaxFile {
+		return errors.New("bad size")
+	}
+	if t.rec != nil {
+		*t.rec = append(*t.rec, wrec{trunc: true, size: size})
+	}
+	t.buf = c15ApplyTrunc(t.buf, size)
+	return nil
+}
+
+// c15ApplyTrunc is ftruncate(2) on a byte image: a shrink drops bytes, a grow zero-fills.
+func c15ApplyTrunc(buf []byte, size int64) []byte {
+	if size <= int64(len(buf)) {
+		return buf[:size]
+	}
+	nb := make([]byte, size)
+	copy(nb, buf)
+	return nb
+}
+
+// c15ApplyOp applies one recorded physical operation to an image.
+func c15ApplyOp(buf []byte, w wrec) []byte {
+	if w.trunc {
+		return c15ApplyTrunc(buf, w.size)
+	}
+	return applyWrite(buf, w.off, w.data)
+}
+
+// c15RecFile wraps a real *os.File and records every physical operation the region code issues on it: Write (at the
+// current position), WriteAt, Truncate. It offers what *os.File offers (io.WriterAt, Truncate, io.Closer).
+type c15RecFile struct {
+	f   *os.File
+	rec *[]wrec
+}
+
+func (r *c15RecFile) Read(p []byte) (int, error) { return r.f.Read(p) }
+func (r *c15RecFile) Seek(off int64, whence int) (int64, error) {
+	return r.f.Seek(off, whence)
+}
+func (r *c15RecFile) Write(p []byte) (int, error) {
+	pos, err := r.f.Seek(0, io.SeekCurrent)
+	if err != nil {
+		return 0, err
+	}
+	if pos+int64(len(p)) > regionMaxFile {
+		return 0, errors.New("file too large")
+	}
+	*r.rec = append(*r.rec, wrec{off: pos, data: append([]byte(nil), p...)})
+	return r.f.Write(p)
+}
+func (r *c15RecFile) WriteAt(p []byte, off int64) (int, error) {
+	if off+int64(len(p)) > regionMaxFile {
+		return 0, errors.New("file too large")
+	}
+	*r.rec = append(*r.rec, wrec{off: off, data: append([]byte(nil), p...)})
+	return r.f.WriteAt(p, off)
+}
+func (r *c15RecFile) Truncate(size int64) error {
+	if size > regionMaxFile {
+		return errors.New("file too large")
+	}
+	*r.rec = append(*r.rec, wrec{trunc: true, size: size})
+	return r.f.Truncate(size)
+}
+func (r *c15RecFile) Close() error { return r.f.Close() }
 
 type memFile struct {
 	buf []byte
@@ -92,7 +167,7 @@ func (m *memFile) Write(p []byte) (int, error) {
 		return 0, errors.New("file too large")
 	}
 	if m.rec != nil {
-		*m.rec = append(*m.rec, wrec{m.pos, append([]byte(nil), p...)})
+		*m.rec = append(*m.rec, wrec{off: m.pos, data: append([]byte(nil), p...)})
 	}
 	m.buf = applyWrite(m.buf, m.pos, p)
 	m.pos += int64(len(p))
@@ -144,9 +219,11 @@ func applyWrite(buf []byte, off int64, p []byte) []byte {
 // ---------- running a history ----------
 
 type regionRun struct {
-	mode   string // mem | file | crash
+	mode   string // backing file: mem (no Truncate method) | memt (with Truncate) | file (real *os.File)
+	crash  bool   // region.crash: physical operations are recorded and every crash image is examined
 	cuts   int    // crash mode: max number of 512-byte cuts per write (0 = all)
 	mf     *memFile
+	rws    io.ReadWriteSeeker // what the Region is given
 	path   string
 	osf    *os.File
 	r      *region.Region
@@ -288,20 +365,52 @@ func (rr *regionRun) open() {
 	st := guardT(20*time.Second, func() {
 		if rr.mode == "file" {
 			rr.osf, err = os.OpenFile(rr.path, os.O_CREATE|os.O_RDWR|os.O_TRUNC, 0o666)
-			if err == nil {
-				rr.r, err = region.CreateWriter(rr.osf)
+			if err != nil {
+				return
+			}
+			rr.rws = rr.osf
+			if rr.crash {
+				rr.rws = &c15RecFile{f: rr.osf, rec: &rr.rec}
 			}
 		} else {
 			rr.mf = &memFile{}
-			if rr.mode == "crash" {
+			if rr.crash {
 				rr.mf.rec = &rr.rec
 			}
-			rr.r, err = region.CreateWriter(rr.mf)
+			rr.rws = rr.mf
+			if rr.mode == "memt" {
+				rr.rws = &c14TruncMem{rr.mf}
+			}
 		}
+		rr.r, err = region.CreateWriter(rr.rws)
 	})
 	if st != "" || err != nil {
 		rr.failed = true
 	}
+}
+
+// reopen re-opens the backing file from offset 0 (file: Close + a fresh *os.File, like region.Open).
+func (rr *regionRun) reopen() (*region.Region, error) {
+	if rr.mode == "file" {
+		if !rr.crash {
+			return region.Open(rr.path)
+		}
+		f, err := os.OpenFile(rr.path, os.O_RDWR, 0o666)
+		if err != nil {
+			return nil, err
+		}
+		rr.osf = f
+		rr.rws = &c15RecFile{f: f, rec: &rr.rec}
+		r, err := region.Load(rr.rws)
+		if err != nil {
+			_ = f.Close()
+		}
+		return r, err
+	}
+	if _, err := rr.rws.Seek(0, io.SeekStart); err != nil {
+		return nil, err
+	}
+	return region.Load(rr.rws)
 }
 
 func (rr *regionRun) close() {
@@ -421,11 +530,13 @@ func (rr *regionRun) crashCheck(pre []byte, ws []wrec, idx int) (points, bad, wo
 	cur := append([]byte(nil), pre...)
 	check(append([]byte(nil), cur...))
 	for j, w := range ws {
-		for _, c := range cutSet(len(w.data), j, rr.cuts) {
-			img := applyWrite(append([]byte(nil), cur...), w.off, w.data[:c])
-			check(img)
+		if !w.trunc { // a write can be torn; Truncate happens or does not
+			for _, c := range cutSet(len(w.data), j, rr.cuts) {
+				img := applyWrite(append([]byte(nil), cur...), w.off, w.data[:c])
+				check(img)
+			}
 		}
-		cur = applyWrite(cur, w.off, w.data)
+		cur = c15ApplyOp(append([]byte(nil), cur...), w)
 		check(append([]byte(nil), cur...))
 	}
 	return
@@ -457,8 +568,8 @@ func (rr *regionRun) step(op string) string {
 		n := atoi(f[4])
 		data := regionPayload(seed, n)
 		var pre []byte
-		if rr.mode == "crash" {
-			pre = append([]byte(nil), rr.mf.buf...)
+		if rr.crash {
+			pre = append([]byte(nil), rr.image()...)
 			rr.rec = rr.rec[:0]
 		}
 		var err error
@@ -477,13 +588,17 @@ func (rr *regionRun) step(op string) string {
 		if x >= 0 && x < 32 && z >= 0 && z < 32 {
 			idx = 32*z + x
 		}
-		if rr.mode == "crash" {
+		if rr.crash {
 			var sb strings.Builder
 			for i, w := range rr.rec {
 				if i > 0 {
 					sb.WriteByte('/')
 				}
-				fmt.Fprintf(&sb, "%d:%d", w.off, len(w.data))
+				if w.trunc {
+					fmt.Fprintf(&sb, "t:%d", w.size)
+				} else {
+					fmt.Fprintf(&sb, "%d:%d", w.off, len(w.data))
+				}
 			}
 			ws := sb.String()
 			if ws == "" {
@@ -536,11 +651,8 @@ func (rr *regionRun) step(op string) string {
 		st := guardT(20*time.Second, func() {
 			if rr.mode == "file" {
 				_ = rr.r.Close()
-				nr, err = region.Open(rr.path)
-			} else {
-				_, _ = rr.mf.Seek(0, io.SeekStart)
-				nr, err = region.Load(rr.mf)
 			}
+			nr, err = rr.reopen()
 		})
 		if st != "" || err != nil {
 			rr.failed = true
@@ -573,7 +685,7 @@ func (rr *regionRun) step(op string) string {
 					err = cerr
 				}
 				if err == nil {
-					nr, err = region.Open(rr.path)
+					nr, err = rr.reopen()
 				}
 			} else {
 				if len(rr.mf.buf) < 8192 {
@@ -581,8 +693,7 @@ func (rr *regionRun) step(op string) string {
 					return
 				}
 				ageTimestamps(rr.mf.buf[4096:8192])
-				_, _ = rr.mf.Seek(0, io.SeekStart)
-				nr, err = region.Load(rr.mf)
+				nr, err = rr.reopen()
 			}
 		})
 		if st != "" || err != nil {
@@ -646,12 +757,23 @@ func runRegion(c *Ctx, op string, head string, ops string) {
 		rr.mode = strings.TrimPrefix(head, "mode=")
 		if rr.mode == "file" {
 			rr.path = regionPath()
-			defer os.Remove(rr.path)
+			defer c14RemoveFile(rr.path)
 		}
 	case "region.crash":
-		rr.mode = "crash"
-		if v := strings.TrimPrefix(head, "cuts="); v != "all" {
+		// head: cuts=<n|all>[:mem|memt|file]
+		rr.crash = true
+		rr.mode = "mem"
+		v := strings.TrimPrefix(head, "cuts=")
+		if i := strings.IndexByte(v, ':'); i >= 0 {
+			rr.mode = v[i+1:]
+			v = v[:i]
+		}
+		if v != "all" {
 			rr.cuts, _ = strconv.Atoi(v)
+		}
+		if rr.mode == "file" {
+			rr.path = regionPath()
+			defer c14RemoveFile(rr.path)
 		}
 	}
 	rr.open()
@@ -737,11 +859,16 @@ func genRegionOps(c *Ctx, nops int, big bool, maxK int, crash bool) string {
 		switch {
 		case p < 55:
 			cl := pick()
-			if !crash && c.R.Intn(400) == 0 { // out-of-range coordinate: Go panics on the index
+			if c.R.Intn(c15If(crash, 100, 400)) == 0 { // out-of-range coordinate: Go panics on the index
 				cl = [4]cell{{32, 0}, {0, 32}, {-1, 3}, {3, -1}}[c.R.Intn(4)]
 			}
 			seed++
 			n := regionSize(c, big, maxK)
+			if crash && c.R.Intn(25) == 0 {
+				// a write over the 255-sector limit (refused: no physical write), usually to a chunk that exists;
+				// the writes after it must still find the allocator state intact
+				n = 1044477 + c.R.Intn(5)
+			}
 			if n <= 1044476 && cl.x >= 0 && cl.x < 32 && cl.z >= 0 && cl.z < 32 {
 				last[cl] = n
 			}
@@ -797,6 +924,22 @@ func genRegionOps(c *Ctx, nops int, big bool, maxK int, crash bool) string {
 	return strings.Join(ops, ",")
 }
 
+// c14RemoveFile removes a region file and, when it lives in a temporary directory this process made, the directory.
+func c14RemoveFile(path string) {
+	os.Remove(path)
+	if regionTmp {
+		os.RemoveAll(regionWorkDir)
+		regionWorkDir, regionTmp = "", false
+	}
+}
+
+func c15If(cond bool, a, b int) int {
+	if cond {
+		return a
+	}
+	return b
+}
+
 func regionLen(c *Ctx) int {
 	switch c.R.Intn(5) {
 	case 0:
@@ -816,7 +959,11 @@ func genC14(c *Ctx) {
 		if big && nops > 60 {
 			nops = 60
 		}
-		runRegion(c, "region.hist", "mode=mem", genRegionOps(c, nops, big, 40, false))
+		mode := "mode=mem"
+		if c.R.Intn(2) == 0 {
+			mode = "mode=memt"
+		}
+		runRegion(c, "region.hist", mode, genRegionOps(c, nops, big, 40, false))
 	}
 	if c.Thorough() {
 		for i := 0; i < 400 && !regionHung; i++ {
@@ -828,7 +975,7 @@ func genC14(c *Ctx) {
 			runRegion(c, "region.hist", "mode=file", genRegionOps(c, nops, big, 40, false))
 		}
 	} else {
-		for i := 0; i < 4 && !regionHung; i++ {
+		for i := 0; i < 16 && !regionHung; i++ {
 			runRegion(c, "region.hist", "mode=file", genRegionOps(c, 1+c.R.Intn(60), false, 12, false))
 		}
 	}
@@ -849,6 +996,13 @@ func genC15(c *Ctx) {
 		if c.R.Intn(6) == 0 {
 			maxK = 24
 		}
-		runRegion(c, "region.crash", "cuts="+cuts, genRegionOps(c, nops, false, maxK, true))
+		mode := ":mem"
+		switch p := c.R.Intn(20); {
+		case p < 9:
+			mode = ":memt"
+		case p < 12:
+			mode = ":file" // a real file under the check's work directory, wrapped to record its physical operations
+		}
+		runRegion(c, "region.crash", "cuts="+cuts+mode, genRegionOps(c, nops, false, maxK, true))
 	}
 }
